@@ -134,7 +134,9 @@ def fmirror(W, p):
     m = [W.int(f"m{i}", -2, Nst + 2) for i in range(n)]
     for i in range(n - 1):
         W.assume(W.lt(m[i], m[i + 1]), "frames strictly ordered")
-    W.assume(W.all([W.le(m[0], 0), W.le(Nst, m[-1])]), "forcing covers the window")
+    # frames need not lie on the model's time grid: frame i sits off[i] seconds (simulation direction) after step m[i]
+    off = [W.int(f"off{i}", 0, DT - 1) for i in range(n)] if p.get("offgrid", True) else [0] * n
+    W.assume(W.all([W.le(m[0] * DT + off[0], 0), W.le(Nst * DT, m[-1] * DT + off[-1])]), "forcing covers the window")
     frames = [c03._frame(W, i) for i in range(n)]
     tmp = W.scratch()
     Lc, Mc, Nc = c03.L, c03.M, c03.N
@@ -155,7 +157,7 @@ def fmirror(W, p):
         k = 0
         for fi, nfr in enumerate(ppart):
             idx = order[k:k + nfr]
-            times = [T0 + sgn * m[i] * DT - romsfile.REFSEC for i in idx]
+            times = [T0 + sgn * (m[i] * DT + off[i]) - romsfile.REFSEC for i in idx]
             us = [frames[i][0] if rev else neg(frames[i][0]) for i in idx]
             vs = [frames[i][1] if rev else neg(frames[i][1]) for i in idx]
             fs = romsfile.forcing_vars(times, us, vs, extra=dict(temp=[frames[i][2] for i in idx]))
